@@ -119,6 +119,13 @@ func genPHY(r *sim.Rand, fl int) []byte {
 		b := append([]byte{0x80}, genMACPayload(r, 0)...)
 		return append(b, r.Bytes(4)...)
 	}
+	if r.Intn(4) == 0 {
+		// the same frames with the RFU and Major bits of the MHDR set
+		// (decoders take them; nothing but R1 is defined)
+		b := genPHY(r, fl)
+		b[0] |= byte(1 + r.Intn(31))
+		return b
+	}
 	switch r.Intn(4) {
 	case 0: // join-request
 		return append([]byte{0x00}, r.Bytes(18+4)...)
